@@ -71,4 +71,4 @@ def check(ctx, rep, rule):
             rep.ob(rule, 'Clone for %s returns the value it was given, field for field' % short, good, detail or str(s.notes[:2]), w, sn,
                    sample='%s::clone(x) = x' % short)
         total += n
-    rep.floor(rule, "Clone impls of the crate's own types reached by the analysed flows and by the harness's clone root", total, 26 * len(ctx.suite_names))
+    rep.floor(rule, "Clone impls of the crate's own types reached by the analysed flows and by the harness's clone root", total, 33 * len(ctx.suite_names))
